@@ -682,6 +682,13 @@ Proof.
   unfold parse_pipeline, parse_tokens in E. rewrite E in H. exact H.
 Qed.
 
+Theorem pipeline_statement_or_error : forall raws,
+  (exists s, parse_pipeline raws = POk s) \/ (exists e, parse_pipeline raws = PErr e).
+Proof.
+  intros raws. pose proof (pipeline_never_panics raws). pose proof (pipeline_never_out_of_fuel raws).
+  destruct (parse_pipeline raws) as [s|e|w|]; [left; eauto | right; eauto | congruence | congruence].
+Qed.
+
 Theorem tokens_never_panic : forall toks w, parse_tokens toks <> PPanic w /\ parse_tokens toks <> PFuel.
 Proof.
   intros toks w. pose proof (parse_safe (map classify toks)) as H. unfold parse_tokens.
